@@ -6,9 +6,9 @@
    of one value are identical and nothing is modified - that part is checked on the implementation
    (deep snapshot before / after, two dumps compared) by harness/props/c07.py, as are the other kinds. *)
 From Coq Require Import String.
-From Coq Require Import List NArith Bool.
+From Coq Require Import List NArith Bool Lia.
 From HS Require Import Base.Prelude Model.Value Model.Escape Model.Version Model.Json Model.ZincDump Model.ZincParse.
-From HS Require Import Proofs.EscapeP Proofs.JsonP Proofs.ZincParseP Proofs.ZincDumpP.
+From HS Require Import Proofs.EscapeP Proofs.JsonP Proofs.ZincParseP Proofs.ZincDumpP Proofs.ZincNumP Proofs.ZincListP Proofs.ZincGridP Proofs.ZincDictP Proofs.JsonGridP.
 Import ListNotations.
 Open Scope N_scope.
 
@@ -65,6 +65,63 @@ Proof.
   intros n v fuel j v' Hp Hd Hr. rewrite (plain_roundtrip n v fuel j Hp Hd) in Hr. inversion Hr; subst v'. exact Hd.
 Qed.
 
+(* WHOLE GRIDS IN BOTH FORMATS: a metadata-free 3.0 grid whose cells are written and read back cell-wise by the ZINC
+   models (gcell) and are plain values for the JSON models comes back as the SAME grid from either format: what is read
+   from the ZINC text equals what is read from the JSON object equals the grid written - so parsing one format and
+   dumping the other loses nothing on such grids *)
+Theorem C07_grid_both_formats : forall n k names rows rts,
+  names <> [] -> Forall colname names -> NoDup names -> Forall2 (grid_gcells_ok n names) rows rts ->
+  Forall (Forall (plain k)) rows -> (n <= length (plain_text names rts))%nat ->
+  zparse_grid (plain_text names rts) = Ok (plain_grid names rows) /\
+  (forall f, zdump_grid (S (S (n + f))) V30 [] (map (fun x => (x, [])) names) (map (fun cells => combine names cells) rows) = Ok (plain_text names rts)) /\
+  (forall f j, jdump_grid (S f) V30 [] (map (fun x => (x, [])) names) (map (fun cells => combine names cells) rows) = Ok j ->
+               exists m, j = JObj m /\ jparse_grid (S f) m = Ok (plain_grid names rows)).
+Proof.
+  intros n k names rows rts Hne Hcn Hnd Hrows Hplain Hn.
+  destruct (grid_roundtrip_values n names rows rts Hne Hcn Hnd Hrows) as [D [_ T]].
+  split; [exact (T Hn)|]. split; [exact D|]. intros f j Hj.
+  assert (MF : map fst (map (fun x : str => (x, @nil (str * hval))) names) = names) by (rewrite map_map; cbn [fst]; apply map_id).
+  apply (json_plain_grid_roundtrip k f V30 [] _ _ j); try exact Hj.
+  - destruct ver30_facts as [pv H]. exists pv. exact H.
+  - destruct names; [contradiction|discriminate].
+  - constructor.
+  - intros [].
+  - constructor.
+  - rewrite MF. exact Hnd.
+  - clear. induction names as [|x l IH]; cbn [map]; constructor; [|exact IH]. split; [constructor|]. split; [intros []|constructor].
+  - clear -Hrows Hplain Hnd MF. revert rts Hrows. induction Hplain as [|cells rows Hc _ IH]; intros rts Hrows; cbn [map]; [constructor|].
+    inversion Hrows as [|? ts ? rts' [Hl _] Hrest]; subst. constructor; [|exact (IH rts' Hrest)].
+    split.
+    + rewrite <- MF at 2. apply canon_combine; [rewrite MF; exact Hnd|rewrite map_length; exact Hl].
+    + unfold plain_items. clear -Hc Hl. revert names Hl. induction Hc as [|x cells Hx _ IH]; intros [|nm names] Hl; cbn in Hl; try discriminate; cbn [combine]; constructor; [exact Hx|].
+      apply IH. lia.
+Qed.
+
+Example C07_grid_nonvacuous :
+  let names := [s_ "a"; s_ "b"] in
+  let rows := [[VStr (s_ "x"); VList [VMarker; VBool true]]; [VNull; VUri (s_ "u")]] in
+  let rts := [[s_ """x"""; s_ "[M,T]"]; [s_ "N"; s_ "`u`"]] in
+  Forall2 (grid_gcells_ok 1 names) rows rts /\ Forall (Forall (plain 2)) rows /\
+  zparse_grid (plain_text names rts) = Ok (plain_grid names rows).
+Proof.
+  intros names rows rts.
+  assert (H : Forall2 (grid_gcells_ok 1 names) rows rts).
+  { constructor; [|constructor; [|constructor]]; (split; [reflexivity|]).
+    - constructor; [apply gcell_zcell; left; apply (leafc_str (s_ "x") (s_ "x")); reflexivity|].
+      constructor; [|constructor]. apply gcell_zcell. right. exists [VMarker; VBool true], [s_ "M"; s_ "T"].
+      split; [reflexivity|]. split; [reflexivity|]. constructor; [exact leafc_marker|]. constructor; [exact (leafc_bool true)|constructor].
+    - constructor; [apply gcell_zcell; left; exact leafc_null|]. constructor; [|constructor].
+      apply gcell_zcell. left. apply (leafc_uri (s_ "u") (s_ "u")). reflexivity. }
+  assert (P : Forall (Forall (plain 2)) rows) by (repeat constructor).
+  split; [exact H|]. split; [exact P|].
+  apply (C07_grid_both_formats 1 2 names rows rts); try assumption.
+  - discriminate.
+  - repeat constructor.
+  - repeat constructor; vm_compute; intuition discriminate.
+  - vm_compute. repeat constructor.
+Qed.
+
+Print Assumptions C07_grid_both_formats.
 Print Assumptions C07_json_leg_nested.
 Print Assumptions C07_json_normalisation_idempotent_nested.
 Print Assumptions C07_zinc_leg.
